@@ -93,6 +93,11 @@ def run(ctx):
             if p.ok:
                 n_ok += 1
                 rep.ob('R15.6', 'Argon2 adapter: Ok only after hash_password_into', len(outs) == 1, 'calls on Ok path: %d' % len(outs), w, 'argon2')
+                # the value returned is the whole buffer the hash was written into (no partial fill, no post-processing)
+                val = p.payload
+                whole = val is not None and val[0] == 'app' and val[1].endswith('hash_password_into#out3') and val[2][:2] == (Sym('self'), Sym('input'))
+                rep.ob('R15.6', 'Argon2 adapter: the returned value is the whole output buffer filled by the caller\'s instance', whole,
+                       'returns %s' % show(val)[:300], w, 'argon2')
                 fails = [e for e in p.events if e[0] == 'outcome' and e[2] == 'Err']
                 rep.ob('R15.6', 'Argon2 adapter: no Ok after failure', not fails, 'Ok path after failed outcome', w, 'argon2')
             else:
